@@ -230,7 +230,16 @@ def m_c18_invalid_nested_brackets(f, rec):
         name = name.split(":", 2)[2]
     a, _, b = name.partition("/")
     plain = {"paren", "tuple", "list", "set", "listcomp", "starred", "dict"}
-    return k[2] in ("trailing", "wrong_closer", "missing_operand", "doubled") and a in plain and b in plain
+    if k[2] in ("trailing", "wrong_closer", "missing_operand", "doubled") and a in plain and b in plain:
+        return True
+    # the same defect reached through brackets of other kinds (subprocess forms, calls, subscripts alternating with displays):
+    # every program of the series is REJECTED, i.e. the work was spent in the diagnostic pass
+    brackets = plain | {"captured", "object", "uncaptured", "hidden", "pyinproc", "call", "subscript", "kwarg", "slice", "envexpr", "attrcall",
+                        "walrus", "binparen", "yieldparen", "genexp", "dictcomp", "compcond", "callmacro"}
+    outs = rec["case"].get("outcomes") or []
+    step = (rec.get("detail") or {}).get("step") or 0
+    # the point that breaks the law is a REJECTED program (an accepted one never is explained by this finding)
+    return a in brackets and b in brackets and a != b and 1 <= step <= len(outs) and outs[step - 1] == "exc:SyntaxError"
 
 
 def m_c18_nested_patterns(f, rec):
@@ -253,6 +262,21 @@ def m_c02_fstring_single_rbrace(f, rec):
 def m_c02_fstring_backslash_brace(f, rec):
     src = rec["case"]["src"]
     return bool(_FSTR.search(src)) and "\\{" in src
+
+
+def m_c02_number_glued_word(f, rec):
+    """a number literal directly followed by a word other than and/else/for/if/in/is/not/or: CPython's tokenizer rejects the
+    literal, here NUMBER and NAME are two tokens (the tokenizer also serves subprocess mode, where 2to3 is a word)"""
+    m = _cpy_msg(rec)
+    return rec["case"].get("origin") == "glued" and m.startswith("invalid ") and "literal" in m
+
+
+def m_c02_continuation_only_line(f, rec):
+    """same defect as K-C09-continuation-only-line: a physical line holding only a backslash is joined without looking at the
+    indentation of the line that follows"""
+    src = rec["case"]["src"]
+    cls = (((rec.get("detail") or {}).get("cpython") or {}).get("cls") or "")
+    return bool(re.search(r"(^|\n)[ \t\f]*\\\r?\n", src)) and cls in ("IndentationError", "TabError")
 
 
 def m_c02_fstring_unclosed_nested_spec(f, rec):
